@@ -9,7 +9,10 @@ import json
 import os
 import re
 import shutil
+import sys
 import vlib
+sys.path.insert(0, os.path.dirname(os.path.abspath(__file__)))
+import factgen  # noqa: E402
 
 # name: (magic, scale line, bytes per component, components written, components stored, bottom-up, channels)
 FMT = {
@@ -676,8 +679,33 @@ def run_trace(ctx, model, exe):
     ctx.cov["trace_threads_histogram"] = {str(n): sum(1 for c in cases if len(c["threads"]) == n) for n in range(0, 9)}
 
 
+FACT_THMS = ("facts_image_loop_nest", "facts_image_index", "facts_image_formats", "facts_trace_match", "facts_trace_model")
+
+
+def source_facts(ctx):
+    """regenerate coq/C20/gen/Facts.v from the working tree (clang AST of SaveImage.h and tracing/Tracing.cpp)."""
+    gen_v = os.path.join(ctx.coqdir, "gen", "Facts.v")
+    facts_js = os.path.join(ctx.build, "facts.json")
+    try:
+        factgen.main(["--repo", ctx.repo, "--out", gen_v, "--json", facts_js, "--work", os.path.join(ctx.build, "ast")])
+        facts = json.load(open(facts_js))
+    except Exception as ex:   # noqa
+        ctx.broken.append("fact extraction failed: %r" % (ex,))
+        facts = {"img": {}, "fmt": {}, "tr": {}, "notes": [repr(ex)[:500]]}
+        os.makedirs(os.path.dirname(gen_v), exist_ok=True)
+        open(gen_v, "w").write(factgen.failing_text())
+    ctx.cov["source_facts"] = {"writeImage": facts.get("img"), "wrappers": facts.get("fmt"), "tracing": facts.get("tr"), "notes": facts.get("notes")}
+    return facts
+
+
 def run(ctx):
-    ctx.coq_check(("Properties.v",))
+    facts = source_facts(ctx)
+    res = ctx.coq_check(("Properties.v", "PropertiesFactsImg.v", "PropertiesFactsTrace.v"))
+    bad_facts = [t for t in FACT_THMS if not res.get(t)]
+    if bad_facts:
+        ctx.log("source-derived obligations that no longer hold: %s; extractor notes: %s; extracted: %s"
+                % (bad_facts, facts.get("notes"), json.dumps({k: facts.get(k) for k in ("img", "fmt", "tr")})[:2000]))
+    ctx.cov["source_obligations_broken"] = bad_facts
     model = ctx.extract(snippets=["conv_N.ml"])
     exe = ctx.cxx(["harness.cpp"], "harness", repo_sources=[], sanitize="asan")
     if not model or not exe:
@@ -690,7 +718,10 @@ def run(ctx):
                 "8191/8192/8193 events, an interval crossing the chunk boundary, random well-nested scripts on 1..8 concurrently recording threads through "
                 "rkcommon::tracing::{beginEvent,endEvent,setMarker,setCounter,setThreadName,saveLog}; file parsed with python json and compared per thread in order, "
                 "and byte-for-byte (cpuUtilization values and printed thread ids normalised) with the model run on the recorded clock values; non-trivial = at least one event recorded")
-    ctx.trusted += ["correspondence harness harness/C20/harness.cpp (includes the working tree's Tracing.cpp as a translation unit to reset the file-static recorder "
+    ctx.trusted += ["fact extractor props/C20/factgen.py + tools/sxast/sxast.py over `clang++ -std=c++11 -fsyntax-only -Xclang -ast-dump=json` of the working tree's "
+                    "SaveImage.h and tracing/Tracing.cpp (expression trees, template arguments, constants, statement placement -> coq/C20/gen/Facts.v; "
+                    "their meaning is coq/C20/FactsDefs.v); sizeof(PIXEL_T) = PIXEL_COMP*sizeof(COMP_T) is a static_assert of the harness",
+                    "correspondence harness harness/C20/harness.cpp (includes the working tree's Tracing.cpp as a translation unit to reset the file-static recorder "
                     "between cases and to read chunk sizes/clock values) + generators/readers in props/C20/check.py (g++ -O1, ASan+UBSan)",
                     "modelled, not verified: fopen/fprintf/fwrite/ofstream/seekp, alloca row buffer, std::list/std::vector/unordered_map, the pointer-keyed string cache, "
                     "steady_clock and getrusage (clock values are inputs of the model; cpuUtilization text is an opaque token assumed to be a JSON number)"]
@@ -700,4 +731,4 @@ def run(ctx):
                         "steady_clock is monotone (an end is not earlier than its begin); the printed cpuUtilization is a finite number",
                         "begin/end histories are properly nested per thread (an END without an open BEGIN makes saveLog drop the rest of that chunk: modelled, excluded from completeness)"]
     if ctx.thorough():
-        ctx.coq_thorough_chk(["C20.Properties"])
+        ctx.coq_thorough_chk(["C20.Properties", "C20.PropertiesFactsImg", "C20.PropertiesFactsTrace"])
